@@ -140,15 +140,22 @@ class Curve(CellObject):
             and self.vertices is not None
         ):
             cells = self.cells
-            parts = np.zeros(self.vertices.shape[0], dtype="int")
-            count = 0
-            for ind in range(1, cells.shape[0]):
-                if cells[ind, 0] != cells[ind - 1, 1]:
-                    count += 1
+            # label the connected components of the segments (union-find)
+            root = np.arange(self.vertices.shape[0])
 
-                parts[cells[ind, :]] = count
+            def find(ind):
+                while root[ind] != ind:
+                    root[ind] = root[root[ind]]
+                    ind = root[ind]
+                return ind
 
-            self._parts = parts
+            for start, end in cells:
+                root_a, root_b = find(int(start)), find(int(end))
+                if root_a != root_b:
+                    root[max(root_a, root_b)] = min(root_a, root_b)
+
+            roots = np.asarray([find(ind) for ind in range(root.shape[0])])
+            self._parts = np.unique(roots, return_inverse=True)[1].astype("int")
 
         return self._parts
 
